@@ -783,7 +783,14 @@ def rule_nonzero_id(R):
     clause_nonzero(R, "id-nz")
 
 
+def rule_shared_bits(R):
+    """CONNECT flags, subscription options and PUBLISH flags bit by bit (a Will QoS of 3 or a reserved bit set is a malformed packet) -- C09's rule, evaluated here"""
+    from .c09 import rule_bits as _r
+    _r(R)
+
+
 def run(R):
+    R.rule("bits", rule_shared_bits)
     R.rule("id-nz", rule_nonzero_id)
     R.rule("varint", rule_varint)
     R.rule("arena", rule_arena)
